@@ -15,7 +15,7 @@ from ..model import Undecided
 from ..cfg import dotted, call_name, is_call, simple_name, unparse, const_value, contains, enclosing, implied
 from ..flow import Defs, depends
 from ..decide import table, ret_kind
-from ..util import keyword, returns_of, calls_in, inside, order_key
+from ..util import resolve1, keyword, returns_of, calls_in, inside, order_key
 
 NOT_DECIDED = 'that a transformed bbox lies inside the coverage numerically; contents of the configured lists'
 
@@ -204,11 +204,9 @@ def c17d(ctx):
     g = fn.cfg
     ret = g.find(lambda x: is_call(x, 'self.client.retrieve'))
     ext = lambda at: at.mentions(lambda x: is_call(x, 'self.extent.contains') and x.args and is_call(x.args[0], 'MapExtent'))
-    ok = bool(ret)
-    for n, x in ret:
-        edges = [(s, d) for s, d, test, pol in g.branch_edges()
-                 if any(ext(at) and p is False for at, p in implied(test, pol))]
-        ok = ok and bool(edges) and all(n not in g.reachable(d) for s, d in edges)
+    # every path to the unsplit request either found the query inside the extent or found no extent configured
+    noext = lambda at: at.op is None and unparse(at.expr) == 'self.extent'
+    ok = bool(ret) and all(g.guarded_any(n, [(ext, True), (noext, False)]) for n, x in ret)
     ctx.check(ok, 'WMSSource._get_map:unsplit-only-inside-extent', 'the unsplit request is not sent when the source extent does not contain the query', fn,
               fail='the full query is sent upstream although it exceeds the source extent')
     sub = g.find(lambda x: is_call(x, 'self._get_sub_query'))
@@ -349,44 +347,51 @@ def c17f(ctx):
     """ResolutionRange.contains excludes a request if EITHER axis resolution is outside the range: the coarse bound
     (min_res) is tested on both axes (or on their max), the fine bound (max_res) on both axes (or on their min)"""
     fn = ctx.fn('mapproxy/grid.py:ResolutionRange.contains')
-    g = fn.cfg
     defs = Defs(fn.node)
-    falses = g.find_stmts(lambda s: isinstance(s, ast.Return) and const_value(s.value, 1) is False)
-    found = {'min': None, 'max': None}
-    for r in falses:
-        st = enclosing(g.stmt[r], ast.If)
-        outer = enclosing(st, ast.If)
-        which = 'min' if outer is not None and 'min_res' in unparse(outer.test) else 'max' if outer is not None and 'max_res' in unparse(outer.test) else None
-        if which is None:
+    tab = ctx.rows(table(fn.node.body, ret_kind, bool_returns=True))
+    # every comparison atom: which bound, which axis, and whether its truth means "resolution below the bound"
+    info = {}
+    for a in tab.atoms:
+        at = tab.atom_objs[a]
+        if at.op != '<':
             continue
-        kinds = set()
-        dirs = []
-        for c in [x for x in ast.walk(st.test) if isinstance(x, ast.Compare)]:
-            from ..cfg import norm_cmp
-            at, pol = norm_cmp(c.left, c.ops[0], c.comparators[0])
-            for side, other in ((at.left, at.right), (at.right, at.left)):
-                if which + '_res' in unparse(side):
-                    k = _res_kind(other, defs)
-                    kinds.add(k)
-                    # direction: False when request res is on the far side of the bound
-                    bound_left = side is at.left
-                    dirs.append((bound_left, pol))
-        is_or = not isinstance(st.test, ast.BoolOp) or isinstance(st.test.op, ast.Or)
-        if which == 'min':
-            ok_axes = (kinds == {'x', 'y'} and is_or) or kinds == {'max'}
-            # too coarse: request res >= min_res  <=>  not (res < min_res)
-            ok_dir = bool(dirs) and all(bl == pol for bl, pol in dirs)
-        else:
-            ok_axes = (kinds == {'x', 'y'} and is_or) or kinds == {'min'}
-            # too fine: request res < max_res
-            ok_dir = bool(dirs) and all(bl != pol for bl, pol in dirs)
-        found[which] = (ok_axes and ok_dir, kinds if ok_dir else {'wrong direction'}, st)
+        for res, bound, below in ((at.left, at.right, True), (at.right, at.left, False)):
+            bt = fn.ctext(bound, at=fn.cfg.EXIT) if isinstance(bound, ast.Name) else unparse(bound)
+            bt = unparse(resolve1(bound, defs)) if isinstance(bound, ast.Name) else bt
+            which = 'min' if 'self.min_res' in bt else 'max' if 'self.max_res' in bt else None
+            kind = _res_kind(_closed(fn, res), defs)
+            if which and kind:
+                info[a] = (which, kind, below)
+    sets = {w: [a for a in tab.atoms if tab.atom_objs[a].op is None and unparse(tab.atom_objs[a].expr) == 'self.%s_res' % w] for w in ('min', 'max')}
     for which, label in (('min', 'coarse bound min_res'), ('max', 'fine bound max_res')):
-        v = found[which]
-        ctx.check(v is not None and v[0], 'ResolutionRange.contains:%s-both-axes' % which,
-                  'the %s excludes the request when either axis resolution is beyond it' % label, fn, v[2] if v else None,
-                  fail='the %s is tested against %s only: a request with non-square pixels that is out of range on one axis is still sent upstream' % (
-                      label, sorted(k or '?' for k in (v[1] if v else ['nothing']))))
+        atoms = [a for a, i in info.items() if i[0] == which]
+        kinds = {info[a][1] for a in atoms}
+        # coarse bound: the request is beyond it when its resolution is NOT below it; fine bound: when it IS below it
+        # (the coarse bound carries a 1e-6 tolerance: `bound < res` and `not res < bound` differ only on the bound itself, both are
+        # accepted; the fine bound is inclusive and must be written as `res < bound`)
+        strict = which == 'min' or all(info[a][2] for a in atoms)
+        axes_ok = kinds == {'x', 'y'} or kinds == {'max' if which == 'min' else 'min'}
+        bad = []
+        if atoms and strict and axes_ok and len(sets[which]) == 1:
+            for asg, out, _ in tab.assignments():
+                if not asg[sets[which][0]]:
+                    continue
+                beyond = any(((not asg[a]) if info[a][2] else asg[a]) if which == 'min' else asg[a] for a in atoms)
+                if beyond and out != 'return False':
+                    bad.append(asg)
+        ok = bool(atoms) and strict and axes_ok and len(sets[which]) == 1 and not bad
+        ctx.check(ok, 'ResolutionRange.contains:%s-both-axes' % which,
+                  'the %s excludes the request when either axis resolution is beyond it (%d rows)' % (label, len(tab.rows)), fn,
+                  fail='the %s is tested against %s only%s: a request with non-square pixels that is out of range on one axis is still sent upstream' % (
+                      label, sorted(kinds) or ['nothing'], '' if strict else ' (comparison on the wrong side of the bound)'))
+
+
+def _closed(fn, e):
+    """closed form of an atom operand (the atom object is detached from the tree: locals are looked up at the function exit)"""
+    try:
+        return fn.canon.expr(e, at=fn.cfg.EXIT)
+    except Exception:       # noqa
+        return e
 
 
 @rule('C17.g', floor=3)
